@@ -496,10 +496,11 @@ func TestC11Exhaustive(t *testing.T) {
 // uncontrolled stress under the race detector
 
 type stressStream struct {
-	mu  sync.Mutex
-	got map[*auparse.AuditMessage]int
-	bad string
-	r   *libaudit.Reassembler
+	mu     sync.Mutex
+	got    map[*auparse.AuditMessage]int
+	gotRaw map[string]int // records that went in through Push(type, raw data), by their text
+	bad    string
+	r      *libaudit.Reassembler
 }
 
 func (s *stressStream) ReassemblyComplete(msgs []*auparse.AuditMessage) {
@@ -511,6 +512,19 @@ func (s *stressStream) ReassemblyComplete(msgs []*auparse.AuditMessage) {
 		s.got[m]++
 		if m.Sequence != msgs[0].Sequence {
 			s.bad = "callback mixes sequences"
+		}
+		if m.RawData != "" {
+			// parsed by the library inside Push: the header fields must be those of this record's own text
+			if s.gotRaw == nil {
+				s.gotRaw = map[string]int{}
+			}
+			s.gotRaw[m.RawData]++
+			var sec int64
+			var ms int
+			var seq uint32
+			if n, _ := fmt.Sscanf(m.RawData, "audit(%d.%d:%d):", &sec, &ms, &seq); n != 3 || seq != m.Sequence || sec != m.Timestamp.Unix() || ms != m.Timestamp.Nanosecond()/1e6 {
+				s.bad = fmt.Sprintf("record %q was delivered with sequence %d and timestamp %d.%03d", m.RawData, m.Sequence, m.Timestamp.Unix(), m.Timestamp.Nanosecond()/1e6)
+			}
 		}
 	}
 	re := len(msgs) > 0 && msgs[0].Sequence%5 == 0 && msgs[0].Sequence >= 1000
@@ -543,15 +557,29 @@ func TestC11Stress(t *testing.T) {
 		st.r = r
 		const G, K = 6, 150
 		all := make([][]*auparse.AuditMessage, G)
+		allRaw := make([][]string, G)
+		pushErr := make([]error, G)
 		var wg sync.WaitGroup
 		for g := 0; g < G; g++ {
 			wg.Add(1)
 			go func(g int) {
 				defer wg.Done()
 				for i := 0; i < K; i++ {
-					m := &auparse.AuditMessage{RecordType: auparse.AuditMessageType([]uint16{1300, 1302, eoe, 1327, 1307}[(i+g)%5]), Sequence: uint32(1000 + i/3 + g)}
-					all[g] = append(all[g], m)
-					r.PushMessage(m)
+					typ, seq := auparse.AuditMessageType([]uint16{1300, 1302, eoe, 1327, 1307}[(i+g)%5]), uint32(1000+i/3+g)
+					if g%2 == 1 {
+						// through Push: the record is parsed inside the call (every goroutine has its own timestamps)
+						raw := fmt.Sprintf("audit(%d.%03d:%d): id=%d-%d", 1700000000+g, i%1000, seq, g, i)
+						if typ != auparse.AUDIT_EOE {
+							allRaw[g] = append(allRaw[g], raw)
+						}
+						if err := r.Push(typ, []byte(raw)); err != nil {
+							pushErr[g] = err
+						}
+					} else {
+						m := &auparse.AuditMessage{RecordType: typ, Sequence: seq}
+						all[g] = append(all[g], m)
+						r.PushMessage(m)
+					}
 					if i%17 == 0 {
 						_ = r.Maintain()
 					}
@@ -609,6 +637,16 @@ func TestC11Stress(t *testing.T) {
 			for _, m := range late[g] {
 				if st.got[m] > 1 {
 					hC11.Fail(t, "TestC11Stress", c, "stress round %d: message (seq %d) pushed while Close was running was delivered %d times", it, m.Sequence, st.got[m])
+				}
+			}
+		}
+		for g := range allRaw {
+			if pushErr[g] != nil {
+				hC11.Fail(t, "TestC11Stress", c, "stress round %d: Push of a well-formed record failed: %v", it, pushErr[g])
+			}
+			for _, raw := range allRaw[g] {
+				if st.gotRaw[raw] != 1 {
+					hC11.Fail(t, "TestC11Stress", c, "stress round %d: the record %q pushed (Push) before Close was delivered %d times", it, raw, st.gotRaw[raw])
 				}
 			}
 		}
